@@ -903,6 +903,13 @@ func (e *Eval) compile(node ast.Node) error {
 		// emit `OpCall NN` where NN is the number of arguments
 		// to pop and invoke the function with.
 		//
+		// Functions are called by name: the name is all we keep of
+		// the callee, so anything else there would be dropped without
+		// ever having been checked - `(3 += 1)(2)`.
+		if _, ok := node.Function.(*ast.Identifier); !ok {
+			return fmt.Errorf("only a named function can be called, not %s", node.Function.String())
+		}
+
 		args := len(node.Arguments)
 		for _, a := range node.Arguments {
 
